@@ -324,6 +324,19 @@ def decode (buf : Bytes) : Except PyErr (List Bytes × Nat) := do
     if length > buf.length - (st + sl) then .error .indexError
     else decodeLoop buf (length + 1) (st + sl) length []
 
+/-- `Name.decode(buf, offset)` for an offset `0 ≤ off`: the Name element is read AT the offset of the same buffer (the
+    components are slices of `buf`, the Length test is against `len(buf) - offset`), the second result is the number of
+    bytes consumed (`offset - origin_offset`).  `off ≥ len(buf)`: `IndexError` from the first `parse_tl_num`. -/
+def decodeAt (buf : Bytes) (off : Nat) : Except PyErr (List Bytes × Nat) := do
+  let (typ, st) ← parseTlNum buf off
+  if typ ≠ TYPE_NAME then .error .valueError
+  else do
+    let (length, sl) ← parseTlNum buf (off + st)
+    if length > buf.length - (off + st + sl) then .error .indexError
+    else do
+      let r ← decodeLoop buf (length + 1) (off + st + sl) length []
+      pure (r.1, r.2 - off)
+
 /-- a `NonStrictName` -/
 inductive NonStrict where
   | wire (b : Bytes)
